@@ -2,6 +2,7 @@ import FractopoModel.Basic.Geom
 import FractopoModel.Lemmas.TopoPerm
 import FractopoModel.Props.C08
 import FractopoModel.Props.C14
+import FractopoModel.Props.C13
 import FractopoModel.Lemmas.IntersectionFilter
 import FractopoModel.Generated.LineDataCache
 import FractopoModel.Generated.ZCoordinates
@@ -141,6 +142,17 @@ theorem C11_F12_cache_named_columns_win (lengths stale azimuths user_az : List R
   ⟨length_cached lengths stale counts cols hl, sets_cached_azimuth detset azimuths user_az cols ha hs, rfl⟩
 
 example : (Gen.ld_azimuth_set_array (fun a => if a < 90 then "E" else "W") [10, 100] { azimuth := some [100, 100] }).1 = ["W", "W"] := by decide +kernel
+
+/-! ### the one validator that keeps state on its class -/
+
+/-- **The under/overlap label of a row does not depend on which rows were validated before it.** The regenerated `UnderlappingSnapValidator.validation_method`
+(class attribute threaded as a value) reports, for a failing end, a label chosen from the call's own arguments only: whatever label earlier rows (in any order) left on
+the class, the verdict and the label are the same -- so the verdict moves with its row under every row permutation. -/
+theorem C11_underlap_label_independent_of_earlier_rows {L P : Type} (endpoints_of : L → List P) (dist : L → P → Rat) (isUl : L → L → P → Option Bool)
+    (overlaps : L → L → Bool) (geom : L) (cands : List L) (t m : Rat) (left_by_earlier_rows left_by_other_order : String) (out : String)
+    (h : Gen.underlap_validation endpoints_of dist isUl overlaps geom cands t m left_by_earlier_rows = .ok (false, out)) :
+    Gen.underlap_validation endpoints_of dist isUl overlaps geom cands t m left_by_other_order = .ok (false, out) :=
+  ((C13.C13_underlap_attribute endpoints_of dist isUl overlaps geom cands t m left_by_earlier_rows left_by_other_order false out h).2.1 rfl).2
 
 /-! ### dimensional analysis of the published parameters (through C08: generated = published) -/
 
